@@ -46,6 +46,7 @@ MAP = [
  ("guard read a temporary that is only set", ["C07"]),
  ("single-precision complex constant", ["C09"]),
  ("while a kind is still provisional", ["C14"]),
+ ("non-finite numpy constant", ["C01"]),
 ]
 def main():
     log = subprocess.run(["git", "-C", "/repo", "log", "--reverse", "--format=%h %s"],
